@@ -164,8 +164,11 @@ def convert_and_read(case):
     doc = case["doc"]
     with tempfile.TemporaryDirectory(prefix="c16_") as d:
         xml = os.path.join(d, "doc.xml")
-        with open(xml, "w", encoding="utf-8") as fh:
-            fh.write(render(doc))
+        if case.get("xml_path"):
+            xml = case["xml_path"]            # a real TrackMate file (corpus): converted as it is
+        else:
+            with open(xml, "w", encoding="utf-8") as fh:
+                fh.write(render(doc))
         out = os.path.join(d, "out.geff")
         try:
             if case.get("via") == "cli":
@@ -226,6 +229,9 @@ def convert_and_read(case):
 
 def observe(case):
     try:
+        import zarr
+
+        zarr.config.set({"async.concurrency": 2, "threading.max_workers": 2})   # 16 forked workers: no oversubscription
         return convert_and_read(case)
     except BaseException as ex:  # noqa: BLE001  (harness-side read failure is an observation too)
         return {"exc": "HARNESS-" + type(ex).__name__, "msg": str(ex)[:300]}
@@ -393,7 +399,9 @@ def oracle(case, o):
             else:
                 got = cell
         if got != want:
-            bad.append(("C16:roi", f"spot {n}: stored polygon {str(got)[:120]}, document {str(want)[:120]}", want))
+            nocoords = roi is not None and roi["pts"] is None and got == []
+            bad.append(("C16:roi-without-coordinates-not-flagged-missing" if nocoords else "C16:roi",
+                        f"spot {n}: stored polygon {str(got)[:120]}, document {str(want)[:120]}", want))
             break
     # --- validation of the output
     if o["graph"] != "ok":
@@ -632,7 +640,251 @@ def malformed_case(rng):
     return c
 
 
+def doc_from_xml(path):
+    """independent reader (xml.etree DOM, no streaming) of a TrackMate file into the abstract document"""
+    import xml.etree.ElementTree as ET
+
+    root = ET.parse(path).getroot()
+    model = root.find("Model")
+    doc = {"version": root.attrib.get("version"), "space": model.attrib.get("spatialunits"),
+           "time": model.attrib.get("timeunits"), "log": root.find("Log") is not None, "gui": root.find("GUIState") is not None}
+    fd = model.find("FeatureDeclarations")
+    for tag, key in (("SpotFeatures", "sf"), ("EdgeFeatures", "ef"), ("TrackFeatures", "tf")):
+        doc[key] = [[f.attrib["feature"], None if "isint" not in f.attrib else f.attrib["isint"] == "true",
+                     f.attrib.get("dimension")] for f in fd.find(tag).findall("Feature")]
+    spots = []
+    for sif in model.find("AllSpots").findall("SpotsInFrame"):
+        for sp in sif.findall("Spot"):
+            a = dict(sp.attrib)
+            s = {"id": int(a.pop("ID")), "name": a.pop("name", None), "frame": int(sif.attrib["frame"]), "roi": None}
+            if "ROI_N_POINTS" in a:
+                n = int(a.pop("ROI_N_POINTS"))
+                vals = (sp.text or "").split()
+                dim = len(vals) // n if vals else 0
+                s["roi"] = {"n": n, "pts": [vals[i:i + dim] for i in range(0, len(vals), dim)] if vals else None}
+            s["f"] = a
+            spots.append(s)
+    doc["spots"] = spots
+    tracks = []
+    for tr in model.find("AllTracks").findall("Track"):
+        a = dict(tr.attrib)
+        t = {"id": int(a.pop("TRACK_ID")), "name": a.pop("name", ""), "f": a, "edges": []}
+        for e in tr.findall("Edge"):
+            ea = dict(e.attrib)
+            t["edges"].append({"s": int(ea.pop("SPOT_SOURCE_ID")), "t": int(ea.pop("SPOT_TARGET_ID")), "f": ea})
+        tracks.append(t)
+    doc["tracks"] = tracks
+    ft = model.find("FilteredTracks")
+    doc["filtered"] = None if ft is None else [int(x.attrib["TRACK_ID"]) for x in ft.findall("TrackID")]
+    st = root.find("Settings")
+    if st is None:
+        doc["settings"] = None
+    else:
+        im = st.find("ImageData")
+        doc["settings"] = {"image": False} if im is None else {"filename": im.attrib.get("filename", ""), "folder": im.attrib.get("folder", "")}
+    return doc
+
+
 def corpus():
     d = common.VERIF / "harness" / "corpus" / PROP
     for f in sorted(d.glob("*.json")):
-        yield json.loads(f.read_text())
+        c = json.loads(f.read_text())
+        if "xml_file" in c:      # a real TrackMate file of the tree under test, read by the independent DOM reader
+            path = common.REPO / c.pop("xml_file")
+            doc = doc_from_xml(path)
+            for ds, dt in itertools.product((False, True), repeat=2):
+                yield dict(c, doc=doc, ds=ds, dt=dt, xml_path=str(path))
+        else:
+            yield c
+
+
+# ----------------------------------------------------------------- model side
+def classify(text):
+    text = str(text)
+    try:
+        return {"i": str(int(text)), "t": text}
+    except ValueError:
+        pass
+    try:
+        float(text)
+        return {"f": text}
+    except ValueError:
+        return {"s": text}
+
+
+def model_request(case):
+    doc = case["doc"]
+
+    def feats(d):
+        return [[k, classify(v)] for k, v in d.items()]
+    return {
+        "space": doc.get("space"), "time": doc.get("time"),
+        "sf": [[f[0], f[1], f[2]] for f in doc["sf"]], "ef": [[f[0], f[1], f[2]] for f in doc["ef"]],
+        "tf": [[f[0], f[1], f[2]] for f in doc["tf"]],
+        "spots": [{"id": s.get("id"), "name": s.get("name"), "f": feats(s["f"]),
+                   "roi": None if s.get("roi") is None else {"n": s["roi"]["n"], "pts": s["roi"]["pts"]}} for s in doc["spots"]],
+        "tracks": [{"id": None if t.get("id") is None else classify(t["id"]), "f": feats(t.get("f", {})),
+                    "edges": [{"s": e["s"], "t": e["t"], "f": feats(e.get("f", {}))} for e in t["edges"]]} for t in doc["tracks"]],
+        "filtered": doc.get("filtered"), "ds": case["ds"], "dt": case["dt"]}
+
+
+def model_cell(v, kind):
+    if v is None:
+        return None
+    if "i" in v:
+        return {"f": fhex(float(int(v["i"])))} if kind == "float64" else {"i": v["i"]}
+    if "fi" in v:
+        return {"f": fhex(float(int(v["fi"])))}
+    if "ft" in v:
+        return {"f": fhex(float(v["ft"]))}
+    if "s" in v:
+        return {"s": v["s"]}
+    if "roi" in v:
+        pts = v["roi"]
+        return {"a": [fhex(float(x)) for p in pts for x in p], "shape": [len(pts), len(pts[0]) if pts else 0]}
+    if "none" in v:
+        return {"a": [], "shape": [0, 0]}      # a None entry of a ragged column: empty array, not flagged (known finding)
+    return v
+
+
+KIND_DTYPE = {"int64": "int64", "float64": "float64", "str": "str", "roi-regular": "float64", "roi-varlen": "object:float64"}
+AXES = ["POSITION_X", "POSITION_Y", "POSITION_Z", "POSITION_T"]
+
+
+def compare_model(case, o, mo):
+    """-> (verdict, detail): verdict in {"same", "differs", "unmodelled"}"""
+    if "err" in mo:
+        return "differs", f"driver error {mo['err']}"
+    if "exc" in mo:
+        if mo["exc"].startswith("unmodelled"):
+            return "unmodelled", mo["exc"]
+        if o.get("exc") != mo["exc"]:
+            return "differs", f"outcome: model raises {mo['exc']}, implementation {o.get('exc', 'succeeds')}"
+        return "same", ""
+    if "exc" in o:
+        return "differs", f"outcome: model succeeds, implementation raises {o['exc']}: {o.get('msg', '')[:120]}"
+    if o.get("structure") != "ok":
+        return "differs", f"structure: {o.get('structure')}"
+    m = mo["ok"]
+    if [int(x) for x in m["nodes"]] != o["nodes"]:
+        return "differs", "node order/set"
+    if [[int(a), int(b)] for a, b in m["edges"]] != o["edges"]:
+        return "differs", "edge order/set"
+    unmodelled = False
+    for grp in ("node", "edge"):
+        mp, ip, meta = m[f"{grp}_props"], o[f"{grp}_props"], o[f"{grp}_meta"]
+        if grp == "node" and not o["nodes"]:
+            if not set(ip) <= set(AXES):
+                return "differs", f"empty graph carries node properties {sorted(ip)}"
+            continue
+        if sorted(mp) != sorted(ip):
+            return "differs", f"{grp} property names: model {sorted(mp)} impl {sorted(ip)}"
+        for k, col in mp.items():
+            if col["kind"] == "unmodelled":
+                unmodelled = True
+                continue
+            if KIND_DTYPE[col["kind"]] != ip[k]["dtype"]:
+                return "differs", f"{grp} property {k}: model kind {col['kind']}, stored dtype {ip[k]['dtype']}"
+            for idx, (a, b) in enumerate(zip(col["cells"], ip[k]["cells"])):
+                if not same_cell(model_cell(a, col["kind"]), b):
+                    return "differs", f"{grp} property {k} element {idx}: model {a}, stored {b}"
+            decl = col["decl"]
+            if (None if decl is None else decl[1]) != meta[k][2]:
+                return "differs", f"{grp} property {k}: unit model {decl and decl[1]} stored {meta[k][2]}"
+    su, tu = m["space"], m["time"]
+    if o["axes"] != [[a, "space" if a != "POSITION_T" else "time", su if a != "POSITION_T" else tu] for a in AXES]:
+        return "differs", "axes/units"
+    if m["lineage"] != (o["track_node_props"] is not None):
+        return "differs", f"lineage declaration: model {m['lineage']}, metadata.track_node_props {o['track_node_props']}"
+    return ("unmodelled" if unmodelled else "same"), ""
+
+
+# ----------------------------------------------------------------- the check
+def tag_of(case, o):
+    doc = case["doc"]
+    if case.get("malformed"):
+        return "malformed-" + case["malformed"] + ("-EXC" if "exc" in o else "")
+    bits = []
+    bits.append("ds" if case["ds"] else "")
+    bits.append("dt" if case["dt"] else "")
+    bits.append("nofilter" if doc.get("filtered") is None else "emptyfilter" if not doc["filtered"] else "filter")
+    bits.append("roi" if any(s.get("roi") for s in doc["spots"]) else "")
+    bits.append("lone" if any(not any(s["id"] in (e["s"], e["t"]) for t in doc["tracks"] for e in t["edges"]) for s in doc["spots"]) else "")
+    bits.append(case.get("via", "api"))
+    return "-".join(b for b in bits if b) + ("-EXC" if "exc" in o else "")
+
+
+def run(ck: common.Check):
+    ck.prove(["GeffProps.C16"])
+    drv = ck.driver()
+    if os.path.isdir("/dev/shm") and os.access("/dev/shm", os.W_OK):
+        tempfile.tempdir = "/dev/shm"           # conversions write hundreds of small zarr files
+    ck.rule = ("cases = corpus (incl. the repo's FakeTracks.xml) + ALL forward edge sets over <=N spots (tracks = connected "
+               "components) x FilteredTracks variants {absent, empty, first, all, rest} x the four discard-flag combinations + "
+               "seeded random documents (0-4 frames, 0-8 spots, 0-3 vertex-disjoint connected tracks with splits and merges, lone "
+               "spots, 0-4 extra int/float spot features and 0-2 edge features on subsets, NaN/Infinity texts, ROIs regular/"
+               "ragged/2-D/3-D, with/without Settings/Log/GUIState/units/FilteredTracks, zarr format 2/3, API or CLI) + a "
+               "malformed stream; non-trivial = at least one spot; distinct = canonical JSON of the case")
+    cases = list(corpus())
+    n_corpus = len(cases)
+    nmax = 3 if ck.quick else 4
+    cases += list(exhaustive(nmax))
+    for i in range(260 if ck.quick else 5000):
+        cases.append(random_case(ck.rng, big=(i % 7 == 0)))
+    for _ in range(60 if ck.quick else 800):
+        cases.append(malformed_case(ck.rng))
+    ck.extra["corpus_cases"] = n_corpus
+    ck.extra["exhaustive_upto_spots"] = nmax
+    obs = common.pmap(observe, cases, chunksize=4)
+    answers = drv.ask([model_request(c) for c in cases])
+    if answers is None:
+        ck.broken.append({"what": "driver Drivers/C16.lean", "detail": drv.broken})
+    n_unmodelled = n_model = 0
+    for i, (c, o) in enumerate(zip(cases, obs)):
+        ck.case({k: v for k, v in c.items() if k not in ("doc", "xml_path")} | {"doc_digest": json.dumps(c["doc"], sort_keys=True)[:4000]},
+                tag_of(c, o), nontrivial=bool(c["doc"]["spots"]))
+        if str(o.get("exc", "")).startswith("HARNESS-"):
+            ck.broken.append({"what": "corr C16 harness read-back", "detail": {"case": c, "obs": o}})
+            continue
+        fails = [] if c.get("malformed") else oracle(c, o)
+        for key, what, exp in fails:
+            ck.fail(key, what, c, {k: o.get(k) for k in ("exc", "msg", "nodes", "edges", "lineage", "graph", "track_node_props") if k in o}, exp)
+        if answers is None:
+            continue
+        verdict, detail = compare_model(c, o, answers[i])
+        if verdict == "unmodelled":
+            n_unmodelled += 1
+        else:
+            n_model += 1
+        if verdict == "differs" and not fails:
+            ck.corr_broken(f"C16:Geff.TrackMate.convert vs from_trackmate_xml_to_geff: {detail}", c,
+                           {k: o.get(k) for k in ("exc", "msg", "nodes", "edges") if k in o},
+                           answers[i] if "exc" in answers[i] else "see model")
+    ck.extra["model_comparisons"] = n_model
+    ck.extra["unmodelled_outcomes_skipped"] = n_unmodelled
+    ck.assumptions += [
+        "lxml iterparse event/cursor handling (_get_attributes_metadata, _get_filtered_tracks_ID, …) is exercised through "
+        "rendered documents, not modelled: partial",
+        "Python int()/float() classify attribute texts (the lexer of the abstract document); float values are compared as "
+        "float(text) bit patterns, NaN == NaN",
+        "NxBackend.write/write_arrays/zarr/read_to_memory are used as given (C01/C03); the model stops at the property "
+        "columns handed to write_arrays",
+        "well-formed = TrackMate's own invariants: unique spot ids, declared features with isint, tracks vertex-disjoint and "
+        "connected, edges between existing spots, ROI on all spots or none",
+    ]
+
+
+def replay(rp):
+    c = rp["case"]
+    if os.path.isdir("/dev/shm") and os.access("/dev/shm", os.W_OK):
+        tempfile.tempdir = "/dev/shm"
+    o = observe(c)
+    fails = [] if c.get("malformed") else oracle(c, o)
+    known = {k["key"] for k in common.load_known() if k["property"] == PROP and k["kind"] == "known"}
+    print(json.dumps({"flags": {k: c[k] for k in ("ds", "dt", "zf", "via") if k in c}, "xml": render(c["doc"])[:3000],
+                      "observed": {k: o.get(k) for k in ("exc", "msg", "nodes", "edges", "graph", "lineage", "track_node_props") if k in o},
+                      "failures": [[k, w] for k, w, _ in fails]}, default=str))
+    real = [f for f in fails if f[0] not in known]
+    print("REPLAY: property holds on this input" if not fails else
+          "REPLAY: property FAILS on this input" + ("" if real else " (known finding)"))
+    return 0 if not fails else 1
